@@ -1,6 +1,8 @@
 /-
   Code-shaped model of verifier.simpleCaseRepo (verifier/case_repo.go) on a directory modelled as a
-  finite map from file names to files.  Names are plain file names (no path separators).
+  finite map from names to files.  A name with a `/` is an entry inside the sub directory named before the `/`;
+  the only thing the model knows about sub directories is what `os.Remove` knows: a directory that still has
+  entries cannot be removed.
 -/
 namespace Verif.Impl
 
@@ -8,6 +10,7 @@ inductive File where
   | case (driver script : String)   -- a test case file (the description does not matter here)
   | other (tag : Nat)                -- any other file; the tag stands for its content (0 planted, 1 script skeleton, 2 default driver)
   | badJson                          -- a file that json.Unmarshal rejects
+  | dir                              -- a sub directory
 deriving DecidableEq, Repr
 
 abbrev Dir := List (String × File)
@@ -19,6 +22,8 @@ def Dir.has (d : Dir) (n : String) : Bool := (d.get n).isSome
 def Dir.erase : Dir → String → Dir
   | [], _ => []
   | (k, f) :: es, n => if k = n then Dir.erase es n else (k, f) :: Dir.erase es n
+/-- `os.Remove` succeeds: the name exists and is not a directory that still has entries -/
+def Dir.removable (d : Dir) (n : String) : Bool := d.has n && !d.any (fun e => e.1.startsWith (n ++ "/"))
 /-- create or truncate -/
 def Dir.put (d : Dir) (n : String) (f : File) : Dir := (n, f) :: d.erase n
 
@@ -57,7 +62,7 @@ def add (d : Dir) (caseName driver script : String) (createDriver : Bool) : Bool
 def refCount (cases : List (String × String × String)) (name : String) : Nat :=
   (cases.map fun c => (if c.2.1 == name then 1 else 0) + (if c.2.2 == name then 1 else 0)).sum
 
-/-- `Del(caseName)`: (ok, directory afterwards).  A failing `os.Remove` (file not there) ends the
+/-- `Del(caseName)`: (ok, directory afterwards).  A failing `os.Remove` (file not there, or a directory that is not empty) ends the
     operation with an error; what was removed before stays removed. -/
 def del (d : Dir) (caseName : String) : Bool × Dir :=
   let n := if caseName.endsWith ".json" then caseName else caseName ++ ".json"
@@ -71,9 +76,9 @@ def del (d : Dir) (caseName : String) : Bool × Dir :=
       let luaUnique := refCount cases script == 1
       if !d.has n then (false, d) else
       let d := d.erase n
-      if asmUnique && !d.has driver then (false, d) else
+      if asmUnique && !d.removable driver then (false, d) else
       let d := if asmUnique then d.erase driver else d
-      if luaUnique && !d.has script then (false, d) else
+      if luaUnique && !d.removable script then (false, d) else
       let d := if luaUnique then d.erase script else d
       (true, d)
 
